@@ -42,6 +42,16 @@ func (s *store) del(key []byte) error {
 	return b.Commit(context.Background())
 }
 
+// delIfEqual removes key only if it still holds val
+func (s *store) delIfEqual(key []byte, val []byte) {
+	s.mu.Lock()
+	defer s.mu.Unlock()
+
+	if cur, err := s.get(key); err == nil && bytes.Equal(cur, val) {
+		s.skl.Remove(key)
+	}
+}
+
 func (s *store) delCurrent(iter storage.Iter) error {
 	b := s.BeginBatchWrite()
 	b.DelCurrent(iter)
@@ -159,7 +169,7 @@ func (b *batch) Commit(ctx context.Context) error {
 			b.store.skl.Remove(keyBytes)
 		} else {
 			if v.ttl != 0 {
-				b.asyncRemove(keyBytes, v.ttl)
+				b.asyncRemove(keyBytes, v.val, v.ttl)
 			}
 			b.store.skl.Set(keyBytes, v.val)
 		}
@@ -169,14 +179,15 @@ func (b *batch) Commit(ctx context.Context) error {
 	return nil
 }
 
-func (b *batch) asyncRemove(key []byte, seconds int64) {
+// asyncRemove expires what this batch has written under key: a value written later is not this
+// batch's to remove, whether it carries a ttl of its own or none
+func (b *batch) asyncRemove(key []byte, val []byte, seconds int64) {
 	if seconds == 0 {
 		return
 	}
 
-	go func(kvStorage storage.KvStorage) {
-		time.AfterFunc(time.Duration(seconds)*time.Second, func() {
-			_ = b.store.del(key)
-		})
-	}(b.store)
+	s := b.store
+	time.AfterFunc(time.Duration(seconds)*time.Second, func() {
+		s.delIfEqual(key, val)
+	})
 }
